@@ -93,10 +93,11 @@ def minHit : List (Hit α) → Option (Hit α)
     | none => some h
     | some m => if dlt m.dist h.dist then some m else some h
 
-/-- insertion into an ascending list, after equal elements (stable) -/
+/-- insertion of an element that came EARLIER in the original order into an ascending list:
+    it goes before equal elements (stability) -/
 def insertHit (h : Hit α) : List (Hit α) → List (Hit α)
   | [] => [h]
-  | x :: xs => if dlt h.dist x.dist then h :: x :: xs else x :: insertHit h xs
+  | x :: xs => if dlt x.dist h.dist then x :: insertHit h xs else h :: x :: xs
 
 /-- `celeritas::sort` of the index array by distance (host: `std::sort`; modelled as a stable
     insertion sort, which is what libstdc++ does for ≤ 16 elements) -/
@@ -389,32 +390,48 @@ def bgEntered (g : Geo α) (u : SimpleUnit α) (st : LocalState α) (h : Hit α)
     else none
   (u.conn.getD surface []).findSome? test
 
+/-- `simple_intersect`: the nearest saved intersection; its pre-crossing sense -/
+def SimpleUnit.pickSimple (u : SimpleUnit α) (st : LocalState α) (vol : Volume α)
+    (hits : List (Hit α)) : Isect α :=
+  match minHit hits with
+  | none => Isect.none'
+  | some h =>
+    let surface := vol.faces.getD h.face 0
+    let cur :=
+      if some surface == st.surface.id then st.surface.sense
+      else (u.surfaces.getD surface default).calcSense st.pos != SignedSense.inside
+    ⟨⟨some surface, cur⟩, h.dist⟩
+
+/-- `complex_intersect` on the sorted intersections -/
+def SimpleUnit.pickComplex (u : SimpleUnit α) (st : LocalState α) (vol : Volume α)
+    (sorted : List (Hit α)) : Isect α :=
+  match firstExit (evalLogic vol.logic) (calcSenses u vol st.pos (toOnFace vol st.surface)).1
+      sorted with
+  | some (h, old) => ⟨⟨some (vol.faces.getD h.face 0), old⟩, h.dist⟩
+  | none => Isect.none'
+
+/-- `background_intersect` on the sorted intersections -/
+def SimpleUnit.pickBackground (g : Geo α) (u : SimpleUnit α) (st : LocalState α)
+    (sorted : List (Hit α)) : Isect α :=
+  match firstEntered (bgEntered g u st) sorted with
+  | some (h, s) => ⟨⟨some h.face, s⟩, h.dist⟩
+  | none => Isect.none'
+
+/-- the choice among the saved intersections (`simple_intersect` / sort + `complex_intersect` /
+    sort + `background_intersect`) -/
+def SimpleUnit.pickHit (g : Geo α) (u : SimpleUnit α) (st : LocalState α) (vol : Volume α)
+    (hits : List (Hit α)) : Isect α :=
+  if hits.isEmpty then Isect.none'
+  else if vol.simpleIntersection then u.pickSimple st vol hits
+  else if vol.internalSurfaces then u.pickComplex st vol (sortHits hits)
+  else u.pickBackground g st (sortHits hits)
+
+/-- `intersect_impl(state, is_valid)` -/
 def SimpleUnit.intersectImpl (g : Geo α) (u : SimpleUnit α) (st : LocalState α) (v : Valid α) :
     Isect α :=
   let vol := u.volumes.getD (st.volume.getD 0) default
   let onFace := findFace vol st.surface.id
-  let hits := gatherHits v (faceAnswers u st onFace 0 vol.faces)
-  if hits.isEmpty then Isect.none'
-  else if vol.simpleIntersection then
-    match minHit hits with
-    | none => Isect.none'
-    | some h =>
-      let surface := vol.faces.getD h.face 0
-      let cur :=
-        if some surface == st.surface.id then st.surface.sense
-        else (u.surfaces.getD surface default).calcSense st.pos != SignedSense.inside
-      ⟨⟨some surface, cur⟩, h.dist⟩
-  else
-    let sorted := sortHits hits
-    if vol.internalSurfaces then
-      let (senses, _) := calcSenses u vol st.pos (toOnFace vol st.surface)
-      match firstExit (evalLogic vol.logic) senses sorted with
-      | some (h, old) => ⟨⟨some (vol.faces.getD h.face 0), old⟩, h.dist⟩
-      | none => Isect.none'
-    else
-      match firstEntered (bgEntered g u st) sorted with
-      | some (h, s) => ⟨⟨some h.face, s⟩, h.dist⟩
-      | none => Isect.none'
+  u.pickHit g st vol (gatherHits v (faceAnswers u st onFace 0 vol.faces))
 
 def SimpleUnit.normal (u : SimpleUnit α) (pos : Vec3 α) (surf : Nat) : Vec3 α :=
   (u.surfaces.getD surf default).calcNormal pos
